@@ -404,6 +404,10 @@ def run(prop, tier, seed, replay=None):
 
     if prop == "C02":
         kf1_witness(res)
+    pair_cov = {}
+    if prop in ("C04", "C20"):
+        from checks import agreement
+        pair_cov = agreement.pairs_stage(res, prop, tier)
 
     res.coverage = {
         "states": states, "transitions": transitions,
@@ -418,6 +422,7 @@ def run(prop, tier, seed, replay=None):
                        "tlc MC_TraceGossip ; non-conforming executions -> tlc MC_ObserveGossip",
     }
     res.coverage.update(res.coverage_extra)
+    res.coverage.update(pair_cov)
     res.assumptions = [
         "tokio paused clock = model clock; 1 tick = 1 s",
         "bounded scopes: exhaustive for the listed constants only, sampled beyond",
